@@ -211,6 +211,7 @@ func runC09(c *Check) {
 	c.MinInstances("C09-R2", 4)
 	ruleRetrieveHelper(c, p, "C09-R3")
 	ruleNilGuard(c, p)
+	ruleHandOffNotUnderDeadline(c, p, "C09-R9")
 	c.Doc("C09-R6", "EO: the hand-off of an admitted item to sync cannot be skipped: blocking send, or select with cancellation as the only alternative.")
 	ruleHandOffNotDroppable(c, p)
 	ruleDropDecisionsArePure(c, p)
